@@ -110,13 +110,24 @@ let check_entry (e : 'v elt) (m : 'v list list) (t : 'v) (domain : bool) (get : 
     (name : string)
     (model_max : 'v option mres Lazy.t) (model_am : (int * int) option mres Lazy.t)
     (model_th : (int * int) list Lazy.t) (gmax : 'v option ans ref) =
+  (* the three answers together, through the checker proved sound in C07.v (check_C07_sound);
+     when it accepts, the component checks below (which only serve to say which part failed)
+     are skipped: check_C07 is their conjunction *)
+  let all_ok =
+    match obs_opt e.parse (get (name ^ ".max")), obs_opt parse_coord (get (name ^ ".am")),
+          obs_list parse_coord (get (name ^ ".th")) with
+    | Ans o1, Ans o2, Ans l when domain ->
+        let oc = match o2 with None -> None | Some rc -> Some (coord_to_nat rc) in
+        Some (e.chk_all m t o1 oc (List.map coord_to_nat (sort_coords l)))
+    | _ -> None in
+  let need = all_ok <> Some true in
   (* maximum *)
   (match obs_opt e.parse (get (name ^ ".max")), Lazy.force model_max with
    | Missing, _ -> diff "%s.max missing" name
    | Panicked, MPanic _ -> ()
    | Panicked, _ -> propfail "%s.max panicked" name
    | Ans o, mm ->
-       if domain && not (e.chk_max m o) then
+       if need && domain && not (e.chk_max m o) then
          propfail "%s.max=%s is not the largest cell value (or None/Some wrong)" name
            (match o with None -> "None" | Some v -> e.show v)
        else begin
@@ -140,7 +151,7 @@ let check_entry (e : 'v elt) (m : 'v list list) (t : 'v) (domain : bool) (get : 
    | Panicked, MPanic _ -> ()
    | Panicked, _ -> propfail "%s.argmax panicked" name
    | Ans o, mm ->
-       if domain && not (e.chk_argmax m (match o with None -> None | Some rc -> Some (coord_to_nat rc))) then
+       if need && domain && not (e.chk_argmax m (match o with None -> None | Some rc -> Some (coord_to_nat rc))) then
          propfail "%s.argmax=%s out of range or not holding the maximum (or None/Some wrong)" name
            (match o with None -> "None" | Some rc -> show_coord rc)
        else
@@ -156,18 +167,11 @@ let check_entry (e : 'v elt) (m : 'v list list) (t : 'v) (domain : bool) (get : 
    | Panicked -> propfail "%s.threshold panicked" name
    | Ans l ->
        let sorted = List.map coord_to_nat (sort_coords l) in
-       if domain && not (e.chk_threshold m t sorted) then
+       if need && domain && not (e.chk_threshold m t sorted) then
          propfail "%s.threshold is not exactly the cells >= t (%d reported)" name (List.length l)
        (* the order of the reported list is unspecified: compared with the model as a set *)
        else if sort_coords l <> sort_coords (Lazy.force model_th) then diff "%s.threshold differs from the model (as a set)" name);
-  (* the three answers together, through the checker proved sound in C07.v (check_C07_sound) *)
-  (match obs_opt e.parse (get (name ^ ".max")), obs_opt parse_coord (get (name ^ ".am")),
-         obs_list parse_coord (get (name ^ ".th")) with
-   | Ans o1, Ans o2, Ans l when domain ->
-       let oc = match o2 with None -> None | Some rc -> Some (coord_to_nat rc) in
-       if not (e.chk_all m t o1 oc (List.map coord_to_nat (sort_coords l))) then
-         propfail "%s: check_C07 rejects (max, argmax, threshold)" name
-   | _ -> ())
+  if all_ok = Some false then propfail "%s: check_C07 rejects (max, argmax, threshold)" name
 
 (* StripedScores-level entry point: offsets *)
 let check_striped (e : 'v elt) (m : 'v list list) (t : 'v) (domain : bool) (get : string -> string option)
@@ -175,12 +179,27 @@ let check_striped (e : 'v elt) (m : 'v list list) (t : 'v) (domain : bool) (get 
     (model_max : 'v option mres Lazy.t) (model_am : int option mres Lazy.t)
     (model_th : int list Lazy.t) (model_cell : int -> 'v mres) =
   let decode off = if rows > 0 && off >= 0 && off < rows * cols then Some (off mod rows, off / rows) else None in
+  (* all three answers through check_C07 first (offsets decoded to coordinates); the component
+     checks below are only evaluated when it does not accept *)
+  let all_ok =
+    match obs_opt e.parse (get (name ^ ".max")), obs_opt int_of_string (get (name ^ ".am")),
+          obs_list int_of_string (get (name ^ ".th")) with
+    | Ans o1, Ans o2, Ans l when domain ->
+        let oc = match o2 with None -> Some None | Some off -> (match decode off with Some rc -> Some (Some (coord_to_nat rc)) | None -> None) in
+        let dec = List.map decode l in
+        (match oc with
+         | Some oc when not (List.exists (fun x -> x = None) dec) ->
+             let coords = List.map (function Some rc -> rc | None -> (0, 0)) dec in
+             Some (e.chk_all m t o1 oc (List.map coord_to_nat (sort_coords coords)))
+         | _ -> Some false)
+    | _ -> None in
+  let need = all_ok <> Some true in
   (match obs_opt e.parse (get (name ^ ".max")), Lazy.force model_max with
    | Missing, _ -> diff "%s.max missing" name
    | Panicked, MPanic _ -> ()
    | Panicked, _ -> propfail "%s.max panicked" name
    | Ans o, mm ->
-       if domain && not (e.chk_max m o) then propfail "%s.max is not the largest cell value (or None/Some wrong)" name
+       if need && domain && not (e.chk_max m o) then propfail "%s.max is not the largest cell value (or None/Some wrong)" name
        else (match mm, o with
              | MOk None, None -> ()
              | MOk (Some b), Some a when e.same a b -> ()
@@ -196,7 +215,7 @@ let check_striped (e : 'v elt) (m : 'v list list) (t : 'v) (domain : bool) (get 
        (match as_coord with
         | None -> propfail "%s.argmax offset out of range" name
         | Some oc ->
-            if domain && not (e.chk_argmax m oc) then propfail "%s.argmax offset does not designate a cell holding the maximum (or None/Some wrong)" name
+            if need && domain && not (e.chk_argmax m oc) then propfail "%s.argmax offset does not designate a cell holding the maximum (or None/Some wrong)" name
             else begin
               (match mm with
                | MOk mo -> if o <> mo then diff "%s.argmax offset=%s model=%s" name
@@ -221,7 +240,7 @@ let check_striped (e : 'v elt) (m : 'v list list) (t : 'v) (domain : bool) (get 
        else begin
          let coords = List.map (function Some rc -> rc | None -> (0, 0)) dec in
          let sorted = List.map coord_to_nat (sort_coords coords) in
-         if domain && not (e.chk_threshold m t sorted) then propfail "%s.threshold is not exactly the cells >= t" name
+         if need && domain && not (e.chk_threshold m t sorted) then propfail "%s.threshold is not exactly the cells >= t" name
          else if List.sort compare l <> List.sort compare (Lazy.force model_th) then diff "%s.threshold offsets differ from the model (as a set)" name
        end)
 
@@ -271,11 +290,20 @@ let conv_n_opt = function None -> None | Some n -> Some (int_of_n n)
 
 (* ---------------- f32 ---------------- *)
 
-let f32_of_string s = mk_f32 (z_of_int (int_of_string s))
+(* decoding a bit pattern goes through Flocq's binary_float_of_bits (Z arithmetic): memoised *)
+let f32_tbl : (int, F32.t) Hashtbl.t = Hashtbl.create 4096
+let f32_of_int (i : int) =
+  match Hashtbl.find_opt f32_tbl i with
+  | Some x -> x
+  | None ->
+      let x = mk_f32 (z_of_int i) in
+      if Hashtbl.length f32_tbl > 200000 then Hashtbl.reset f32_tbl;
+      Hashtbl.add f32_tbl i x; x
+let f32_of_string s = f32_of_int (int_of_string s)
 let f32_bits x = int_of_z (bits_f32 x)
 let f32_elt : F32.t elt = {
   parse = f32_of_string;
-  of_int = (fun i -> mk_f32 (z_of_int i));
+  of_int = f32_of_int;
   same = (fun a b -> f32_bits a = f32_bits b);
   show = (fun x -> string_of_int (f32_bits x));
   in_domain = (fun x -> not (f32_is_nan x));
@@ -315,15 +343,17 @@ let run_f32 get_in get cols =
     check_entry e m t domain get "a"
       (lazy (of_res (fun x -> x) (f32_max_avx2 m)))
       (lazy (of_res conv_coord_opt (f32_argmax_avx2 min_ m))) th_model gmax;
+    (* the threshold of every arm is the same function (C07_arms_agree, by reflexivity): the
+       dispatcher's and the StripedScores-level lists are evaluated once *)
+    let th_disp = lazy (List.map coord_of_nat (f32_dispatch_threshold AGeneric m t)) in
+    let th_ss = lazy (List.map int_of_n (f32_ss_threshold m t)) in
     List.iter (fun an ->
       let a = arm_of an in
       let am = lazy (f32_dispatch_argmax a min_ m) in
       let mx = lazy (of_res (fun x -> x) (f32_dispatch_max a m)) in
-      check_entry e m t domain get ("d" ^ an) mx (lazy (of_res conv_coord_opt (Lazy.force am)))
-        (lazy (List.map coord_of_nat (f32_dispatch_threshold a m t))) gmax;
+      check_entry e m t domain get ("d" ^ an) mx (lazy (of_res conv_coord_opt (Lazy.force am))) th_disp gmax;
       check_striped e m t domain get ("s" ^ an) rows cols mx
-        (lazy (of_res conv_n_opt (f32_ss_argmax (Lazy.force am) m)))
-        (lazy (List.map int_of_n (f32_ss_threshold m t)))
+        (lazy (of_res conv_n_opt (f32_ss_argmax (Lazy.force am) m))) th_ss
         (fun off -> of_res (fun x -> x) (f32_index_usize m (nat_of_int off))))
       ["G"; "S"; "A"]
   end;
@@ -372,14 +402,14 @@ let run_u8 get_in get =
   check_entry e m t domain get "a"
     (lazy (of_res (fun x -> x) (u8_max_avx2 m)))
     (lazy (of_res conv_coord_opt (u8_argmax_avx2 m))) th_model gmax;
+  let th_ss = lazy (List.map int_of_n (u8_ss_threshold m t)) in
   List.iter (fun an ->
     let a = arm_of an in
     let am = lazy (u8_dispatch_argmax a m) in
     let mx = lazy (of_res (fun x -> x) (u8_dispatch_max a m)) in
     check_entry e m t domain get ("d" ^ an) mx (lazy (of_res conv_coord_opt (Lazy.force am))) th_model gmax;
     check_striped e m t domain get ("s" ^ an) rows cols mx
-      (lazy (of_res conv_n_opt (u8_ss_argmax (Lazy.force am) m)))
-      (lazy (List.map int_of_n (u8_ss_threshold m t)))
+      (lazy (of_res conv_n_opt (u8_ss_argmax (Lazy.force am) m))) th_ss
       (fun off -> of_res (fun x -> x) (u8_index_usize m (nat_of_int off))))
     ["G"; "S"; "A"];
   let n = min mi (rows * cols) in
@@ -473,6 +503,22 @@ let run_e2e get_in get =
           end
         end)
     ["G"; "S"; "A"]
+
+(* The extracted list functions are not tail recursive and a 3000-row matrix has ~10^5 cells:
+   re-execute once under a larger stack limit (soft limit raised to 1 GB when the hard limit
+   allows it; otherwise the default stays and very large cases may still overflow). *)
+let () =
+  match Sys.getenv_opt "LM_MAXI_STACK" with
+  | Some _ -> ()
+  | None ->
+      (try
+         Unix.putenv "LM_MAXI_STACK" "1";
+         Unix.execv "/bin/sh"
+           (Array.append
+              [| "/bin/sh"; "-c"; "ulimit -s 1048576 2>/dev/null || ulimit -s unlimited 2>/dev/null; exec \"$0\" \"$@\"";
+                 Sys.executable_name |]
+              (Array.sub Sys.argv 1 (Array.length Sys.argv - 1)))
+       with _ -> ())
 
 let () =
   try
